@@ -3,6 +3,7 @@ import ThriftVerif.Lib.PluginLemmas
 import ThriftVerif.Gen.Std
 import ThriftVerif.Gen.StdLemmas
 import ThriftVerif.Gen.SchemaCheck
+import ThriftVerif.Lib.PluginCodecLemmas
 import ThriftVerif.Generated.C11Schema
 /-
   C11 — plugins see the compiler's AST and options, and their answers are honoured.
@@ -60,7 +61,15 @@ theorem response_roundtrip (res : GoVal) (bs : Bytes)
   simp only [List.append_nil] at hr
   exact ⟨v', by unfold Gen.Std.read; rw [hr]; rfl, hw⟩
 
-/-- a well-typed request is always written (marshalling cannot fail) -/
+/-- **Marshalling cannot fail**: every well-typed object of the regenerated schema is written (the fast
+codec has no union check and no set validation, and the schema says so: `noUnionB` by evaluation) -/
+theorem marshal_total (sidx : Nat) (obj : GoVal) (hwt : WT Generated.C11.prog.structs (.struct sidx) obj) :
+    ∃ bs, write Generated.C11.prog sidx obj = .ok bs := by
+  obtain ⟨w, hw⟩ := Plugin.Codec.toW_total Generated.C11.prog
+    (Plugin.Codec.noUnionB_sound _ (by decide)) rfl obj (.struct sidx) hwt
+  exact ⟨encW w, by simp [write, hw, bind]⟩
+
+/-- whatever the writer emits for a struct-like ends with the STOP byte -/
 theorem write_ends_with_stop (sidx : Nat) (obj : GoVal) (bs : Bytes)
     (h : write Generated.C11.prog sidx obj = .ok bs) : ∃ x, bs = x ++ [0] := by
   simp only [write, Res.bind_eq_ok] at h
@@ -85,46 +94,54 @@ theorem write_ends_with_stop (sidx : Nat) (obj : GoVal) (bs : Bytes)
 
 /-! ### include compression -/
 
-/-- **decompress ∘ compress = id** on every include tree that is consistent (equal filenames ⇒ equal
-subtrees: what `parseFileRecursively`'s `thriftMap[path]` memo guarantees — one `*Thrift` per normalised
-path, so the unfolding of the pointer graph has equal subtrees under equal names) and in which no
-included file's name starts with the reference marker.  Both ways the code decompresses: on the plugin
-side (`UnmarshalRequest`: nil map, collect first) and on the compiler side (`defer decompress(req.AST, m)`
-with the compressor's own map, the revert that later plugins and the caller rely on).  Any fuel ≥ the
-include depth suffices; no bound on the graph. -/
-theorem compress_decompress (t : Tree) (hc : Consistent t) (hn : NoRef t) (f : Nat) (hf : t.depth ≤ f) :
-    decompress f none (compress t).1 = .ok t ∧
-    decompress f (some (compress t).2) (compress t).1 = .ok t := by
+/-- **decompress ∘ compress = id, node for node**, on every include tree that is consistent (equal
+filenames ⇒ the same file: equal contents and equal includes — what `parseFileRecursively`'s
+`thriftMap[path]` memo guarantees: one `*Thrift` per normalised path, so the unfolding of the pointer
+graph has equal subtrees under equal names; the `Include`s leading to a file may differ) and in which no
+included file's name starts with the reference marker.  The nodes carry arbitrary payloads (`inc`: the
+Include's Path/Used, `body`: everything else of the Thrift), which come back unchanged.  Both ways the
+code decompresses: on the plugin side (`UnmarshalRequest`: nil map, collect first) and on the compiler
+side (`defer decompress(req.AST, m)` with the compressor's own map — the revert that later plugins and
+the caller rely on).  Any fuel ≥ the include depth suffices; no bound on the graph. -/
+theorem compress_decompress {α : Type} (dflt : α) (t : Tree α) (hc : Consistent t) (hn : NoRef t)
+    (f : Nat) (hf : t.depth ≤ f) :
+    decompress f none (compress dflt t).1 = .ok t ∧
+    decompress f (some (compress dflt t).2) (compress dflt t).1 = .ok t := by
   cases t with
-  | node fn ks =>
+  | node inc fn body ks =>
     simp only [Tree.depth] at hf
-    have hI0 : Inv (fun d => d ∈ nodesK ks) [] { vis := [], heap := Heap.empty } :=
+    have hI0 : Inv (fun d => d ∈ nodesK ks) [] ({ vis := [], heap := Heap.empty } : CState α) :=
       ⟨fun k hk => absurd rfl hk, fun k hk => (by cases hk), fun k hk => (by cases hk)⟩
-    obtain ⟨_, _, _, h4⟩ := compressKids_inv (fun d => d ∈ nodesK ks)
+    obtain ⟨_, _, _, h4⟩ := compressKids_inv dflt (fun d => d ∈ nodesK ks)
       (fun a b ha hb e => hc a b ha hb e) (fun a ha => hn a ha)
       (sizeK ks) ks (Nat.le_refl _) [] { vis := [], heap := Heap.empty } hI0
       (fun d hd => ⟨hd, fun h => by cases h⟩)
-    have hcol := collect_compress (sizeK ks) ks (Nat.le_refl _) (fun d hd => hn d hd)
+    have hcol := collect_compress dflt (sizeK ks) ks (Nat.le_refl _) (fun d hd => hn d hd)
       { vis := [], heap := Heap.empty } id (fun _ _ _ _ => rfl)
     have h := h4 f hf
     constructor
-    · simp only [decompress, compress, Tree.kids, Tree.fn]
+    · simp only [decompress, compress, Tree.kids, Tree.fn, Tree.inc, Tree.body]
       simp only [id] at hcol
       rw [hcol, h]
-    · simp only [decompress, compress, Tree.kids, Tree.fn]
+    · simp only [decompress, compress, Tree.kids, Tree.fn, Tree.inc, Tree.body]
       rw [h]
 
-/-- hypotheses of `compress_decompress` are satisfiable: a diamond (d included twice) -/
-example : decompress 2 none (compress (.node [97] [.node [98] [.node [100] []], .node [99] [.node [100] []]])).1 =
-    .ok (.node [97] [.node [98] [.node [100] []], .node [99] [.node [100] []]]) := by rfl
+/-- hypotheses of `compress_decompress` are satisfiable: a diamond (d included twice, through includes
+with different payloads 1 and 2) -/
+example : decompress 2 none (compress 0 (.node 0 [97] 7 [.node 1 [98] 8 [.node 1 [100] 9 []], .node 2 [99] 8 [.node 2 [100] 9 []]])).1 =
+    .ok (.node 0 [97] 7 [.node 1 [98] 8 [.node 1 [100] 9 []], .node 2 [99] 8 [.node 2 [100] 9 []]]) := by rfl
 
 /-- the second occurrence really is replaced by a reference (compression is not the identity) -/
-example : (compress (.node [97] [.node [98] [.node [100] []], .node [99] [.node [100] []]])).1 =
-    .node [97] [.node [98] [.node [100] []], .node [99] [.node (refPrefix ++ [100]) []]] := by rfl
+example : (compress 0 (.node 0 [97] 7 [.node 1 [98] 8 [.node 1 [100] 9 []], .node 2 [99] 8 [.node 2 [100] 9 []]])).1 =
+    .node 0 [97] 7 [.node 1 [98] 8 [.node 1 [100] 9 []], .node 2 [99] 8 [.node 2 (refPrefix ++ [100]) 0 []]] := by rfl
 
 /-- outside the hypotheses the statement is false — an included file whose (cwd-relative) name starts
 with "THRIFGO_REF:" is taken for a reference by the plugin side, which panics "not found ref": -/
-example : decompress 5 none (compress (.node [97] [.node (refPrefix ++ [120]) []])).1 = .panic := by rfl
+example : decompress 5 none (compress () (.node () [97] () [.node () (refPrefix ++ [120]) () []])).1 = .panic := by rfl
+
+/-- … and an inconsistent tree (two different files under one name) comes back changed -/
+example : decompress 5 none (compress 0 (.node 0 [97] 0 [.node 0 [98] 1 [], .node 0 [98] 2 []])).1 =
+    .ok (.node 0 [97] 0 [.node 0 [98] 1 [], .node 0 [98] 1 []]) := by rfl
 
 /-! ### data trailer -/
 
